@@ -3,7 +3,7 @@ import ast
 import itertools
 from fractions import Fraction as Fr
 from ..core import Result
-from ..pm import AnalysisError, unparse
+from ..pm import AnalysisError, Missing, unparse
 from ..match import Code
 from ..paths import paths, annotate, callee_names, call_attr
 from ..rat import (Ev, Rat, Sym, Poly, fn_eval, rat_eq, Inconclusive, ONE,
@@ -121,7 +121,9 @@ def radial_law(ctx):
     lp = loops[0]
     aug = [s for s in lp.body if isinstance(s, ast.AugAssign)]
     if len(aug) != 1 or not isinstance(aug[0].op, ast.Add):
-        raise AnalysisError('_radial_term: accumulation statement not found')
+        raise Missing('RADIAL-LAW', f, 'radial summand',
+                      '_radial_term does not accumulate the terms of the radial '
+                      'polynomial (no `value += ...` in the summation loop)')
     sym = Sym()
     ev = Ev(sym=sym)
     for p in ('n', 'm', 'r', 'k'):
@@ -721,7 +723,9 @@ def coeff_store(ctx):
                         f'coefficients are truncated',
                         construct=f'{cn} coefficient store'))
     if n < 1:
-        raise AnalysisError('COEFF-STORE: no coefficient store found')
+        raise Missing('COEFF-STORE', P.func('ZernikeStandard.__init__'),
+                      'coefficient store',
+                      'the coefficients given to the constructor are not stored')
     return res
 
 
